@@ -2,6 +2,16 @@
 """Writes /verif/seeded/README.md from seeded/*/meta.json, result.json and the notes below."""
 import glob, json, os
 NOTES = {
+    'C09_3': 'round 2 (functions); missed at first (no data string with an unpaired surrogate); FIXED_DATA gained surrogate-escaped strings - caught since',
+    'C09_4': 'round 2 (functions); missed at first (no read-only frame derived from a writable buffer that is rewritten afterwards); C09 gained the rocached/poked frame kind (owner.ro, jpg cached, owner buffer re-rendered) - caught since (stale_jpg)',
+    'C10_3': 'round 2 (functions); first run ended as MACHINERY-FAILURE (the self-test judged a clean history on the real code); what the monitors say about that history is now merged into the verdicts - caught since',
+    'C11_3': 'round 2 (functions); missed at first (results of parse_options / normalize_config were never written into by the caller); every evaluation now modifies the returned containers in place and parses the same text again - caught since',
+    'C11_4': 'round 2 (functions); first run ended as MACHINERY-FAILURE (the self-test needs a conforming vector on the real code); on a tree with witnesses a failing self-test is recorded as void instead - caught since',
+    'C13_4': 'round 2 (functions); missed at first (record payloads were digits and dots only); line-mode records now carry a carriage return (mid-record or right before the newline) - caught since',
+    'C14_3': 'round 2 (functions); first run ended as MACHINERY-FAILURE, then missed (crash points existed only for the builtins.open/file-object path; saved positions never differed in length by two characters); the observed file system now also injects crashes at os.open/os.write/os.close of the head files and one rendering uses 128-byte cells - caught since',
+    'C14_4': 'round 2 (functions); missed at first (readers were built with the default file_size); reader r1 now gets file_size=1 (meaningless for a reader) - caught since',
+    'C15_3': 'round 2 (functions); missed at first (credentials were short); character class "long" (a 300-character token as password) added to Redact cfgs - caught since',
+    'C16_3': 'round 2 (functions); missed at first (three fixed allow-lists through OpenTelemetryClient); a sample of the specification vectors, rendered over an alphabet whose names/patterns end in "_histogram", now goes through the client wiring in fresh interpreters - caught since',
     'C01_3': 'round 2; missed at first (no explicit multi-topic subscription to a source with a varying topic set behind a skipping relay); C01 gained ExplicitMulti - caught since',
     'C01_4': 'round 2; missed at first, caught since by the same ExplicitMulti topology',
     'C02_3': 'round 2; missed at first (the simulated network copied every part at send time); simzmq now reads copy=False buffers >= 64 KiB at delivery time and the content pipeline reuses one large pixel buffer - caught since',
@@ -11,7 +21,7 @@ NOTES = {
     'C04_3': 'round 2; NOT caught: needs blocking sends (timeout=None) with two consumers and one send() blocked longer than the connection timeout; the harness drives Filter.loop_once (100 ms slices) only, where the change has no effect',
     'C04_4': 'round 2; missed at first (no non-balanced publisher bound to two addresses); C04 gained the TwoAddr stall scenario - caught since',
     'C05_3': 'round 2; missed at first; C05 gained the eph-first differential with a slow mixed consumer and a long stream (restricted to what each consumer gets from its synchronized sources) - caught since',
-    'C05_4': 'round 2; NOT caught: needs a registered "?" listener next to a registered slow worker on one endpoint of a balanced publisher with the other workers slower than the listener; the late-listener differential does not reach it (and the unchanged tree already misbehaves when the listener attaches first: known finding C05-balanced-listener-first)',
+    'C05_4': 'round 2; missed at first (in the late-listener differential every other worker was faster than the listener, so the stream was over before the listener attached); C05 gained Balance2EphSlow2 (both workers slower than the listener), C04 the balanced-listener stall scenario, and the specification the design mutation bal_eph_reenables whose TLC counterexample is replayed by C04 - caught since',
     'C06_4': 'round 2; missed at first (no balanced topology in the fault enumeration); C06 gained kill/restart of a worker of a balanced splitter that is the bottleneck - caught since',
     'C07_3': 'round 2; missed at first (the balanced rejoin was always a sink); C07 gained Balance2Relay and a stored schedule - caught since',
     'C07_4': 'round 2; missed at first (no worker ever ended cleanly mid-stream); with exits now part of the specification C07 gained Balance3 with a worker ending cleanly and a stored schedule - caught since',
